@@ -775,6 +775,10 @@ class FunctionAnalysis:
         # out= writes to its argument in every scipp/numpy function
         if 'out' in kwargs and kwargs['out'] is not None:
             self.mutate(kwargs['out'], e, 'out= argument')
+        memo = self._memo_global(e.func, env)
+        if memo is not None:
+            # a module-level memoising wrapper (lru_cache(...)(f), cache(f)) hands out the one object it stored
+            return AV(frozenset({memo}), frozenset({memo + '[]'}))
         r = self.resolve_callee(e.func, env)
         kind = r[0]
         if kind == 'func':
@@ -792,6 +796,17 @@ class FunctionAnalysis:
         # call of a local callable: may alias anything passed
         allv = frozenset().union(*[a.all() for a in args], *[v.all() for v in kwargs.values()]) if (args or kwargs) else frozenset()
         return AV(frozenset(), allv)
+
+    def _memo_global(self, fn, env):
+        if not isinstance(fn, ast.Name) or fn.id in env or fn.id not in self.mi.assigns:
+            return None
+        val = self.mi.assigns[fn.id]
+
+        def is_cache(x):
+            return isinstance(x, ast.Name | ast.Attribute) and ast.unparse(x).split('.')[-1] in ('lru_cache', 'cache')
+        if isinstance(val, ast.Call) and (is_cache(val.func) or (isinstance(val.func, ast.Call) and is_cache(val.func.func))):
+            return f'g:{self.mi.name}.{fn.id}#cache'
+        return None
 
     def construct(self, ci: ClassInfo, args, kwargs, node) -> AV:
         init = self._find_method(ci, '__init__')
